@@ -12,6 +12,7 @@ EXTENDS DltCodec, TLC, Json
 CONSTANTS MaxArgs,      \* 0..2
           Rich,         \* TRUE: single arguments range over TRAI x SCOD x empty names as well
           AllFlags,     \* TRUE: all 64 combinations of sh/be/ueh/weid/wsid/wtms, FALSE: sh x be only for pairs
+          SingleAllFlags, \* FALSE: messages with arguments only for two combinations of the optional standard-header fields
           Emit
 Iota(n) == [i \in 1..n |-> i]                 \* pairwise distinct bytes: byte-order slips are visible
 Widths == {8, 16, 32, 64, 128}
@@ -59,6 +60,7 @@ Choose == /\ stage = "start"
           /\ \E ff \in Flags : \E kk \in Kinds(ff.ueh) : f' = ff /\ k' = kk
           /\ stage' = "msg" /\ args' = <<>>
 AddArg == /\ stage = "msg" /\ k = "v" /\ Len(args) < MaxArgs
+          /\ Len(args) = 0 => (SingleAllFlags \/ (f.weid = f.wtms /\ ~f.wsid))
           /\ Len(args) = 1 => (args[1] \in Args2 /\ (AllFlags \/ (f.ueh /\ f.weid /\ ~f.wsid /\ f.wtms)))
           /\ \E a \in (IF Len(args) = 0 THEN Args1 ELSE Args2) : args' = Append(args, a)
           /\ UNCHANGED <<stage, f, k>>
